@@ -267,11 +267,12 @@ def braceCount (acc : Str) : Except Err Nat :=
 def braceGo : BState → Str → Str → Except Err Str
   | .none, racc, [] => .ok racc.reverse
   | .str, racc, [] => .ok racc.reverse
-  | .open [], _, [] => .error .braceUnterminated
   | .open acc, _, [] =>
-    match braceCount acc with
-    | .error e => .error e
-    | .ok _ => .error .braceUnterminated
+    if acc = [] then .error .braceUnterminated
+    else
+      match braceCount acc with
+      | .error e => .error e
+      | .ok _ => .error .braceUnterminated
   | .none, racc, c :: r =>
     if c = '{' then .error .braceAfterChar
     else if c = '}' then .error .braceCloseHere
@@ -282,9 +283,8 @@ def braceGo : BState → Str → Str → Except Err Str
     else braceGo .str (c :: racc) r
   | .open acc, racc, c :: r =>
     if c = '{' ∨ c = '}' then
-      match acc with
-      | [] => .error .braceInt     -- `int("{")`, `int("}")`
-      | _ =>
+      if acc = [] then .error .braceInt     -- `int("{")`, `int("}")`
+      else
         match braceCount acc with
         | .error e => .error e
         | .ok n =>
@@ -449,12 +449,12 @@ def kwAllowed (cls : Cls) (k : Key) : Bool :=
     aligner that `self._aligner()` constructs (`Aligner.__cinit__`, `PrefixComparer.__init__`). -/
 def construct (cls : Cls) (sequence : Str) (name : Option Str) (kw : Params) : Except Err Single :=
   let anchored := cls = .prefix ∨ cls = .suffix
-  let kw := if anchored then kw.set .minOverlap (.int sequence.length) else kw
   if kw.any (fun kv => !kwAllowed cls kv.1) then .error .typeError
   else
     let forceAnywhere : Bool := match kw.get .forceAnywhere with | some v => v.truthy | none => false
     let maxErrors := (kw.get .maxErrors).getD (.float ⟨1, 1⟩)
-    let minOverlap := (kw.get .minOverlap).getD (.int 3)
+    -- `PrefixAdapter`/`SuffixAdapter`: `kwargs["min_overlap"] = len(sequence)`
+    let minOverlap := if anchored then .int sequence.length else (kw.get .minOverlap).getD (.int 3)
     let readWildcards := (kw.get .readWildcards).getD (.bool false)
     let adapterWildcards := (kw.get .adapterWildcards).getD (.bool true)
     let indels := (kw.get .indels).getD (.bool true)
